@@ -93,12 +93,13 @@ def twins():
 
 
 def run_cmds(arg):
-    files, cmds, target = arg
+    files, cmds, target = arg[:3]
+    extra = list(arg[3]) if len(arg) > 3 else []
     d = runner.new_dir("g")
     runner.write_tree(d, files)
     out = {}
     for cmd in cmds:
-        r = runner.cli([cmd, "--format", "json"] + (target if isinstance(target, list) else [target]), d)
+        r = runner.cli([cmd, "--format", "json"] + extra + (target if isinstance(target, list) else [target]), d)
         vs = r.violations()
         out[cmd] = {"exit": r.exit, "v": None if vs is None else sorted([v["rule_id"], v["file_path"], v["line"], v["column"], v["message"]] for v in vs),
                     "err": r.err[-300:] if vs is None else ""}
@@ -154,6 +155,24 @@ def run(ctx):
             cfg["__carrier__"] = "yaml-aliases"
         jobs.append((dict(srcs, **dump_cfg(rng, cfg)), [cmd], "."))
         meta.append(("foreign", (cmd, cfg)))
+    # the same relation with the worker pool (enough files for --parallel to really use it): sections are read again in every worker and in the
+    # parent's cross-file pass
+    fill = {"fill/f%02d.py" % k: "def fill_%d(a):\n    print(a)\n    return a * %d\n" % (k, 10007 + k) for k in range(20)}
+    jobs.append((dict(srcs, **dict(fill, **{".thailint.json": json.dumps(base_cfg)})), cmds, ".", ["--parallel"]))
+    meta.append(("base-parallel", None))
+    par_cmds = ["dry", "stringly-typed"] + [c for c in cmds if c not in ("dry", "stringly-typed")]
+    for i in range(ctx.size(12, 120)):
+        cmd = par_cmds[i % len(par_cmds)] if i >= 6 else par_cmds[i % 2]
+        cfg = json.loads(json.dumps(base_cfg))
+        secs = rng.sample(sorted(FOREIGN), rng.randint(2, 6))
+        for sec in secs:
+            if sec not in OWN[cmd]:
+                cfg[sec] = FOREIGN[sec](rng)
+        if i < 6:
+            other = "dry" if cmd == "stringly-typed" else "stringly-typed"
+            cfg[other] = dict(FOREIGN[other](rng), enabled=(i >= 4))  # the other cross-file rule switched off (on in the last pair)
+        jobs.append((dict(srcs, **dict(fill, **dump_cfg(rng, cfg))), [cmd], ".", ["--parallel"]))
+        meta.append(("foreign-parallel", (cmd, cfg)))
     poly = polyglot()
     jobs.append((poly, cmds, "."))
     meta.append(("polyglot", None))
@@ -191,20 +210,24 @@ def run(ctx):
                                 {"argv": [cmd, "--format", "json", "."]}, jobs[0][0])
     ctx.inconclusive_if(any(not base_res[c]["v"] for c in cmds), "trigger project does not trigger %s" % [c for c in cmds if not base_res[c]["v"]])
     # (b) foreign configuration
+    base_seq = base_res
+    base_par = res[[m[0] for m in meta].index("base-parallel")]
     for (kind, info), r, job in zip(meta, res, jobs):
-        if kind != "foreign":
+        if kind not in ("foreign", "foreign-parallel"):
             continue
         cmd, cfg = info
         ctx.evaluations += 1
         got = r[cmd]
-        ctx.count("foreign_config_checked")
-        ctx.nontrivial(["foreign", cmd, sorted(k for k in cfg if k not in base_cfg), json.dumps(cfg, sort_keys=True)])
+        base_res = base_par if kind == "foreign-parallel" else base_seq
+        ctx.count("foreign_config_checked" if kind == "foreign" else "foreign_config_parallel_checked")
+        ctx.nontrivial([kind, cmd, sorted(k for k in cfg if k not in base_cfg), json.dumps(cfg, sort_keys=True)])
         if got["v"] != base_res[cmd]["v"] or got["exit"] != base_res[cmd]["exit"]:
             a, b = Counter(map(tuple, base_res[cmd]["v"] or [])), Counter(map(tuple, got["v"] or []))
             # attribute to the foreign section(s) by name for the mechanism key
-            ctx.discrepancy("foreign-config-changes:%s" % cmd, "`%s` changed under foreign sections %s: lost %r gained %r exit %s->%s %s" % (
+            ctx.discrepancy("foreign-config-changes:%s%s" % (cmd, ":parallel" if kind == "foreign-parallel" else ""), "`%s` changed under foreign sections %s: lost %r gained %r exit %s->%s %s" % (
                 cmd, sorted(k for k in cfg if k not in OWN[cmd]), list((a - b).elements())[:2], list((b - a).elements())[:2],
-                base_res[cmd]["exit"], got["exit"], got["err"][-200:]), {"argv": [cmd, "--format", "json", "."], "config": cfg}, job[0])
+                base_res[cmd]["exit"], got["exit"], got["err"][-200:]), {"argv": [cmd, "--format", "json"] + (["--parallel"] if kind == "foreign-parallel" else []) + ["."], "config": cfg}, job[0])
+    base_res = base_seq
     # (c) language dispatch on swapped / unsupported files
     pres = res[[m[0] for m in meta].index("polyglot")]
     for cmd in cmds:
